@@ -99,6 +99,7 @@ package regular
 //@   ensures [private-key-label-is-not-selected-by-the-filter] arg(ssh.NewSSHAgentKeyWithOpt, n0, 1).PrivateKeyLabel == "private-key"
 //@   ensures err == nil ==> (result0 != nil && fresh(result0) && result0.AgentKey == ret(ssh.NewSSHAgentKeyWithOpt, n0, 0) && result0.AgentKey != nil && result0.csrs == nil)
 //@   ensures err == nil <==> ret(ssh.NewSSHAgentKeyWithOpt, n0, 1) == nil
+//@   ensures [nothing-removed] calls(Agent.Remove) == old(calls(Agent.Remove)) && calls(Agent.RemoveAll) == old(calls(Agent.RemoveAll))
 //@   ensures err != nil ==> result0 == nil
 
 //@ func newDefaultConf()
@@ -136,6 +137,7 @@ package regular
 //@     keyid.enc(elems(result0[0].(*csrAgentKey).csrs[0].Principals), 1, param.TransID, param.ReqUser, param.ClientIP, param.ReqHost,
 //@       false, false, false, false, 0, 1, 1)
 //@   ensures calls(generateAgentKey) <= g0 + 1
+//@   ensures [generating-removes-nothing-from-the-agent] calls(Agent.Remove) == old(calls(Agent.Remove)) && calls(Agent.RemoveAll) == old(calls(Agent.RemoveAll))
 
 //@ # ---------------------------------------------------------------- the handler object: built by NewHandler only, never reconfigured
 //@ immutable Handler.certValiditySec, Handler.agent, Handler.conf, conf.CertValiditySec
